@@ -22,7 +22,7 @@ func TemporaryEvaluate(md metautils.NiceMD) error {
 	adminGroups := os.Getenv("ADMINGROUPS")
 	var match bool
 	for _, g := range strings.Split(md.Get("groups"), semicolon) {
-		if strings.Contains(adminGroups, g) {
+		if g != "" && isAdminGroup(adminGroups, g) {
 			match = true
 			break
 		}
@@ -31,4 +31,14 @@ func TemporaryEvaluate(md metautils.NiceMD) error {
 		return status.Errorf(codes.Unauthenticated, "Set allowed only for %s", adminGroups)
 	}
 	return nil
+}
+
+// isAdminGroup checks whether the group is exactly one of the comma separated administrator groups
+func isAdminGroup(adminGroups string, group string) bool {
+	for _, adminGroup := range strings.Split(adminGroups, ",") {
+		if adminGroup == group {
+			return true
+		}
+	}
+	return false
 }
